@@ -12,7 +12,7 @@ MAY_PANIC = [
     "Iterator::step_by", "RefCell::borrow", "String::insert", "String::remove", "String::drain", "char::from_digit",
     "Duration::", "process::exit", "process::abort", "unreachable_unchecked", "mem::transmute", "mem::zeroed", "ptr::read", "ptr::write",
     "Vec::with_capacity", "String::with_capacity", "Vec::reserve", "Vec::reserve_exact", "String::reserve", "VecDeque::with_capacity",
-    "Iterator::sum", "Iterator::product", "num::pow", "num::abs", "num::neg", "ops::Neg::neg", "ops::Div::div", "ops::Rem::rem",
+    "Iterator::sum", "Iterator::product", "num::pow", "num::abs", "num::neg", "ops::Neg::neg", "ops::Div::div", "ops::Rem::rem", "ops::Mul::mul", "ops::Add::add", "ops::Sub::sub", "ops::Shl::shl", "ops::Shr::shr",
     "from_utf8_unchecked", "get_unchecked", "Vec::from_raw_parts", "Vec::set_len", "alloc::alloc",
 ]
 
@@ -86,7 +86,7 @@ NO_PANIC += ["std::option::Option::replace", "std::option::Option::insert", "std
              "std::string::String::from_utf8", "std::string::String::from_utf8_lossy", "std::string::String::extend", "std::string::String::into_bytes",
              "core::str::starts_with", "core::str::ends_with", "core::str::contains", "core::str::find", "core::str::chars", "core::str::bytes",
              "core::str::trim", "core::str::to_owned", "core::str::to_string", "core::str::to_lowercase", "core::str::to_uppercase", "core::str::parse",
-             "core::str::split", "core::str::lines", "core::str::strip_prefix", "core::str::strip_suffix", "core::str::as_ptr", "core::ptr::const_ptr::cast", "core::ptr::mut_ptr::cast", "std::ptr::const_ptr::cast", "std::ptr::mut_ptr::cast", "core::str::eq_ignore_ascii_case",
+             "core::str::split", "core::str::lines", "core::str::strip_prefix", "core::str::strip_suffix", "core::str::as_ptr", "Option::transpose", "Result::transpose", "core::ptr::const_ptr::cast", "core::ptr::mut_ptr::cast", "std::ptr::const_ptr::cast", "std::ptr::mut_ptr::cast", "core::str::eq_ignore_ascii_case",
              "core::num::to_be", "core::num::from_be", "core::num::to_le", "core::num::from_le", "core::num::to_be_bytes", "core::num::to_ne_bytes",
              "core::num::from_be_bytes", "core::num::from_ne_bytes", "core::num::leading_zeros", "core::num::trailing_zeros", "core::num::count_ones",
              "core::num::count_zeros", "core::num::min", "core::num::max", "core::num::abs_diff", "core::num::overflowing_", "core::num::is_power_of_two",
